@@ -1,0 +1,42 @@
+//go:build verif
+
+package network
+
+import (
+	"github.com/LemoFoundationLtd/lemochain-core/chain/types"
+	"github.com/LemoFoundationLtd/lemochain-core/network/p2p"
+)
+
+// Verification hooks (property C15). Add-only accessors to the unexported
+// message handlers; they call the production functions unchanged.
+
+// VerifPeer wraps the unexported peer type.
+type VerifPeer struct{ p *peer }
+
+// VerifNewPeer is newPeer.
+func VerifNewPeer(conn p2p.IPeer) *VerifPeer { return &VerifPeer{p: newPeer(conn)} }
+
+// VerifRegister is pm.peers.Register.
+func (pm *ProtocolManager) VerifRegister(p *VerifPeer) { pm.peers.Register(p.p) }
+
+// VerifWork is ProtocolManager.work (the dispatcher of handleMsg) on one message.
+func (pm *ProtocolManager) VerifWork(msg *p2p.Msg, p *VerifPeer) error { return pm.work(msg, p.p) }
+
+// VerifRespBlocks is ProtocolManager.respBlocks.
+func (pm *ProtocolManager) VerifRespBlocks(from, to uint32, p *VerifPeer, hasChangeLog bool) {
+	pm.respBlocks(from, to, p.p, hasChangeLog)
+}
+
+// VerifRcvBlockLoop runs ProtocolManager.rcvBlockLoop (blocks until Stop).
+func (pm *ProtocolManager) VerifRcvBlockLoop() { pm.rcvBlockLoop() }
+
+// VerifPushBlocks hands decoded blocks to rcvBlockLoop exactly like handleBlocksMsg does.
+func (pm *ProtocolManager) VerifPushBlocks(p *VerifPeer, blocks types.Blocks) {
+	pm.rcvBlocksCh <- &rcvBlockObj{p: p.p, blocks: blocks}
+}
+
+// VerifConfirmCacheSize is pm.confirmsCache.Size.
+func (pm *ProtocolManager) VerifConfirmCacheSize() int { return pm.confirmsCache.Size() }
+
+// VerifBlockCache returns the manager's block cache.
+func (pm *ProtocolManager) VerifBlockCache() *BlockCache { return pm.blockCache }
